@@ -257,6 +257,10 @@ def shapes(tier="quick", seed=0):
         op("/k/any", "get", "getAny", ["k"], responses={"200": resp_json({})}),
         op("/k/owner", "put", "putOwner", ["k"], None, body_json(ref("Owner")), {"200": resp_json(ref("Owner")), "201": {"description": "created"}}),
     ], KINDS), response_kinds=True)
+    # deterministic random documents (fixed seeds, vetted on the unchanged tree): breadth over feature combinations nobody thought of
+    from props import randdoc
+    for rs in ([1, 2, 3, 5, 8, 13, 21, 35] if tier == "quick" else list(range(1, 61))):
+        add(f"random-{rs}", randdoc.document(rs), random_doc=True)
     if tier == "thorough":
         rnd = random.Random(seed)
         prim_names = list(PRIMS)
